@@ -10,6 +10,7 @@ THEOREMS = ["quote_constants", "signing_bytes_injective", "hash_covers_signed_fi
             "verify_for_iff", "payees_are_parsed_ids", "expired_iff", "expired_true_iff",
             "historical_flags_regression", "historical_verify_iff",
             "history_invariant", "regression_flagged", "regression_between_refuted",
+            "issue_constants", "skip_only_if_bad", "not_bad_regression_flagged", "bad_needs_three_strikes",
             "quote_gap_constant", "storecost_ok_iff", "forwarded_quotes_verify", "forged_quote_not_forwarded"]
 RULE = ("quotes built from real ed25519 keys: valid quotes; every single-field and random double-field "
         "mutation of the presented fields against the signed fields (content, timestamp at +-1 ns / same "
@@ -22,7 +23,9 @@ RULE = ("quotes built from real ed25519 keys: valid quotes; every single-field a
         "historical pairs around live_time_diff = time_diff + margin {-1,0,+1}, regressions of live_time / "
         "payment count, equal and future timestamps; delivery sequences (2-9 steps, 1-3 interleaved peers, in-order / "
         "shuffled / stale-then-newest / in-between / equal-timestamp, injected regressions) through the real "
-        "SwarmDriver::handle_local_cmd(QuoteVerification); batches for ant_node quotes_verification (this node valid / expired / "
+        "SwarmDriver::handle_local_cmd(QuoteVerification); the same with nothing cleared in between -- quotes, unrelated "
+        "issues (RecordNodeIssue of every kind) and time steps (0/1/9/10/11 s around the rate limit, 289/299/300/301 s around the "
+        "retention) interleaved, up to three BadQuoting strikes and beyond; batches for ant_node quotes_verification (this node valid / expired / "
         "badly signed / absent among 1-4 other quoters: genuine, forged fields under a stale genuine signature, wrong claimed "
         "peer, other content, inside / outside the 10 s window, junk signature, undecodable key) and verify_quote_for_storecost "
         "cases (address match / mismatch / peer address, expiry boundary, signature).  A case is distinct/non-trivial by (op, family, outcome)")
@@ -38,7 +41,9 @@ ASSUMPTIONS = [
     "ant_node::verif_hooks_quote on a Network built over plain channels, the emitted LocalSwarmCmd is read from the channel",
     "verify_peer_quote is driven through a client-mode SwarmDriver and the guarded hook ant_networking::verif_hooks::cmd "
     "(handle_local_cmd pass-through, quotes_history / node_issues readers); the harness clears the peer's issue list "
-    "around every delivery because record_node_issue records at most one issue per ten seconds"]
+    "around every delivery because record_node_issue records at most one issue per ten seconds; the `driver` sequences clear "
+    "nothing and let time pass through the guarded hook age_node_issues (it shifts the recorded Instants back), so the model's "
+    "whole-second clock is exact as long as a case runs in well under a second"]
 
 NS = 10 ** 9
 MASK = (1 << 64) - 1
@@ -441,6 +446,56 @@ def gen_history(rng, n):
     return cases
 
 
+def gen_driver(rng, n):
+    """quotes, unrelated issues and the passing of time interleaved on one SwarmDriver (nothing cleared)"""
+    cases = []
+    for i in range(n):
+        fam = rng.choice(["issue-then-regress", "issue-then-regress", "strikes", "ratelimit", "retention", "random"])
+        steps = []
+        peers = [0] if rng.random() < 0.7 else [0, 1]
+        age_of = {p: 4000 for p in peers}       # seconds ago of the next (newer) quote of that peer
+        lt = {p: rng.randrange(5, 50) for p in peers}
+        rpc = {p: rng.randrange(5, 50) for p in peers}
+
+        def quote(p, regress=False, stale=False):
+            age_of[p] -= rng.randrange(5, 60)
+            a = age_of[p] + (rng.randrange(100, 300) if stale else 0)
+            l, r = lt[p], rpc[p]
+            if regress:
+                if rng.random() < 0.5:
+                    l = max(l - rng.choice([1, 3]), 0)
+                else:
+                    r = max(r - rng.choice([1, 3]), 0)
+            else:
+                lt[p] += rng.choice([0, 0, 1])
+                rpc[p] += rng.choice([0, 1, 2])
+                l, r = lt[p], rpc[p]
+            return {"quote": {"peer": {"key": p}, "q": hist_quote(rng, a, l, r)}}
+
+        for p in peers:
+            steps.append(quote(p))
+        m = rng.choice([3, 5, 8, 12])
+        for j in range(m):
+            p = rng.choice(peers)
+            if fam == "issue-then-regress":
+                seq = [{"issue": {"peer": {"key": p}, "kind": rng.choice([0, 1, 3])}}, {"age": rng.choice([11, 11, 12, 60])},
+                       quote(p, regress=True)]
+            elif fam == "strikes":
+                seq = [{"age": rng.choice([11, 11, 30])}, quote(p, regress=rng.random() < 0.8)]
+            elif fam == "ratelimit":
+                seq = [{"age": rng.choice([0, 1, 9, 10, 11])}, quote(p, regress=rng.random() < 0.7)]
+            elif fam == "retention":
+                seq = [{"issue": {"peer": {"key": p}, "kind": rng.choice([0, 1, 2, 3])}}, {"age": rng.choice([100, 150, 289, 299, 300, 301])},
+                       quote(p, regress=rng.random() < 0.5)]
+            else:
+                seq = [rng.choice([{"age": rng.choice([0, 5, 10, 11, 100, 299, 300])},
+                                   {"issue": {"peer": {"key": p}, "kind": rng.randrange(4)}},
+                                   quote(p, regress=rng.random() < 0.5), quote(p, stale=True)])]
+            steps += seq
+        cases.append({"op": "driver", "family": fam, "nkeys": NKEYS, "steps": steps})
+    return cases
+
+
 NONTS = ["addr", "crs", "mr", "rpc", "lt", "nd", "ns"]
 
 
@@ -547,6 +602,7 @@ def gen(ctx):
     cases += gen_expiry(rng, 60 if quick else 600)
     cases += gen_historical(rng, 160 if quick else 3000)
     cases += gen_history(rng, 150 if quick else 2500)
+    cases += gen_driver(rng, 150 if quick else 2500)
     cases += gen_duty(rng, 150 if quick else 2500)
     cases += gen_storecost(rng, 60 if quick else 1000)
     return cases
@@ -699,6 +755,42 @@ def oracle(c, o):
                 if not ok:
                     v.append(("duty-without-valid-self-quote", "quotes were handed down although this node is not a valid, "
                               "unexpired quoter of the batch [self %s]" % c.get("family")))
+    elif c["op"] == "driver":
+        bad, issues, since, delivered, stored = {}, {}, {}, {}, {}
+        total_age = 0
+        for i, (st, r) in enumerate(zip(c["steps"], o["steps"])):
+            if "age" in st:
+                total_age += st["age"]
+                for p in since:
+                    since[p] += st["age"]
+                continue
+            if not r["ok"]:
+                v.append(("history-handler", "handle_local_cmd failed at step %d" % i))
+            p = (st.get("quote") or st.get("issue"))["peer"]["key"]
+            before = issues.get(p, [])
+            if "quote" in st:
+                q = st["quote"]["q"]
+                t = ts_ns(r["ts"])
+                delivered.setdefault(p, {})[t] = (q["m"]["lt"], q["m"]["rpc"])
+                ref_t = stored.get(p)
+                ref = delivered[p].get(ts_ns(ref_t)) if ref_t else None
+                if (not bad.get(p, False) and ref is not None and ts_ns(ref_t) <= t
+                        and (q["m"]["lt"] < ref[0] or q["m"]["rpc"] < ref[1])
+                        and (not before or since.get(p, 0) > 10) and total_age <= 250 and len(before) < 10):
+                    if r["issues"] != before + [2]:
+                        v.append(("history-regression-missed",
+                                  "step %d: peer %d is not considered bad (issues on record: %s, last one %s s ago) and delivers a quote "
+                                  "that is newer than its reference but reports less (live_time %d -> %d, payments %d -> %d); no "
+                                  "BadQuoting issue was recorded (issues afterwards: %s)"
+                                  % (i, p, before, since.get(p), ref[0], q["m"]["lt"], ref[1], q["m"]["rpc"], r["issues"])))
+            if r["is_bad"] and not bad.get(p, False):
+                if max([r["issues"].count(k) for k in set(r["issues"])] or [0]) < 3:
+                    v.append(("bad-without-three-strikes", "step %d: peer %d is considered bad with issues %s" % (i, p, r["issues"])))
+            if r["issues"] != before:
+                since[p] = 0
+            issues[p] = r["issues"]
+            bad[p] = r["is_bad"]
+            stored[p] = r["stored_ts"]
     elif c["op"] == "history":
         acc = {}      # peer -> accepted (timestamp, live_time, payments)
         for i, (d, st) in enumerate(zip(c["deliveries"], o["steps"])):
@@ -805,6 +897,21 @@ def model_term(c, o):
     if c["op"] == "expiry":
         return "agree_signing %s %s && agree_expired %s %s %s" % (
             c_quote(c["q"], o["q"]), cbytes(o["q"]["bfs"]), cN(ts_ns(o["now"])), c_quote(c["q"], o["q"]), cbool(o["r"]))
+    if c["op"] == "driver":
+        steps = []
+        for st, r in zip(c["steps"], o["steps"]):
+            if "age" in st:
+                steps.append("(DAge %s, None)" % cN(st["age"]))
+                continue
+            p = (st.get("quote") or st.get("issue"))["peer"]["key"]
+            seen = "Some (%s, (%s, %s, %s))" % (cN(p), clist([cN(k) for k in r["issues"]]), cbool(r["is_bad"]),
+                                                copt(r["stored_ts"], lambda t: cN(ts_ns(t))))
+            if "quote" in st:
+                q = c_quote(st["quote"]["q"], {"ts": r["ts"], "pk": "", "sig": ""})
+                steps.append("(DQuote %s %s %s, %s)" % (cN(ts_ns(r["now"])), cN(p), q, seen))
+            else:
+                steps.append("(DIssue %s %s, %s)" % (cN(p), cN(st["issue"]["kind"]), seen))
+        return "agree_driver driver_init %s" % clist(steps)
     if c["op"] == "storecost":
         t = ts_ns(o["q"]["ts"])
         if expired_at(t, ts_ns(o["now"])) != expired_at(t, ts_ns(o["now_after"])):
@@ -876,6 +983,8 @@ def nontrivial(c, o):
     if c["op"] == "duty":
         fw = o["forwarded"]
         return (c["op"], c.get("family"), len(c["quotes"]), None if fw is None else len(fw))
+    if c["op"] == "driver":
+        return (c["op"], c.get("family"), tuple((tuple(r.get("issues", ())), r.get("is_bad")) for r in o["steps"][-3:]))
     if c["op"] == "storecost":
         return (c["op"], c.get("family"), o["code"])
     return (c["op"], c.get("family"), o["r"], o["newer"])
